@@ -30,6 +30,7 @@ func runC03(p *eng.Prog, r *eng.Report, tier string) {
 	c03Client(c)
 	c03Decode(c)
 	c03Chain(c)
+	c03AdvertisedIsAccepted(c, "C03.11")
 	// the SASL feature value is shared by every session that uses it: what one
 	// session's Parse saw (the mechanisms its server offered) must not be kept
 	// in, or alias, state that another session's Parse overwrites
@@ -290,4 +291,66 @@ func c03Chain(c *cx) {
 		}
 	}
 	c.r.Floor("C03.3", "permission pass-through sites", n, 3)
+}
+
+// c03AdvertisedIsAccepted (C03.11): "a mechanism that both sides did not offer
+// is never used" has two halves on the receiving side. negotiateServer accepts
+// any mechanism of the configured list by name (C03.3); the other half is that
+// the advertisement lists every one of them: in the List closure of newSASL the
+// loop over the configured mechanisms writes the mechanism's name on every path
+// that reaches the next iteration or the end of the loop (it may leave early
+// only by returning). A filter in the advertisement that the acceptance does
+// not repeat makes the receiver run a mechanism it did not offer.
+func c03AdvertisedIsAccepted(c *cx, id string) {
+	f := c.fn(id, "", "newSASL")
+	if f == nil {
+		return
+	}
+	n := 0
+	for _, l := range f.Lits {
+		g := l.Graph()
+		l.WalkBody(func(nd ast.Node) bool {
+			rs, ok := nd.(*ast.RangeStmt)
+			if !ok || !strings.HasPrefix(l.Norm(rs.X, nil), "outer.p") {
+				return true
+			}
+			if t, ok := l.Info().TypeOf(rs.X).Underlying().(*types.Slice); !ok || eng.TypeStr(t.Elem()) != "mellium.im/sasl.Mechanism" {
+				return true
+			}
+			vid, _ := rs.Value.(*ast.Ident)
+			if vid == nil || len(l.Calls("*.EncodeToken")) == 0 {
+				return true
+			}
+			vo := l.Info().ObjectOf(vid)
+			isEmit := func(q eng.Point, x ast.Node) bool {
+				found := false
+				ast.Inspect(x, func(y ast.Node) bool {
+					cl, ok := y.(*ast.CallExpr)
+					if !ok || !eng.Glob("*.EncodeToken", l.CalleeID(cl)) || len(cl.Args) != 1 {
+						return !found
+					}
+					ast.Inspect(cl.Args[0], func(z ast.Node) bool {
+						if sel, ok := z.(*ast.SelectorExpr); ok && sel.Sel.Name == "Name" {
+							if idn, ok := ast.Unparen(sel.X).(*ast.Ident); ok && l.Info().ObjectOf(idn) == vo {
+								found = true
+							}
+						}
+						return !found
+					})
+					return !found
+				})
+				return found
+			}
+			body, head, done, okp := g.LoopPoints(rs)
+			if !okp {
+				c.r.Unresolved(id, "loop over the configured mechanisms in "+l.Short)
+				return true
+			}
+			n++
+			okw := g.MustPassBefore(body, head, isEmit, nil) && g.MustPassBefore(body, done, isEmit, nil)
+			c.r.Check(id, l, "every configured mechanism is advertised", "O: each iteration of the advertisement loop writes the mechanism's name before the next iteration starts (what negotiateServer accepts by name is what was offered)", rs.Pos(), okw, "an iteration can go on to the next mechanism without advertising this one: the receiver still accepts it when the peer names it")
+			return true
+		})
+	}
+	c.r.Floor(id, "advertisement loops over the configured mechanisms", n, 1)
 }
